@@ -207,8 +207,24 @@ func runC19(e *Env) {
 								continue
 							}
 							// unexported: the Go name must be the camel-case of the UAPI name (errnoEPERM <- EPERM, prSetNoNewPrivs <- PR_SET_NO_NEW_PRIVS)
+							// or, for names in the library's own style (ActionKill <- SECCOMP_RET_KILL, FilterFlagSpecAllow <-
+							// SECCOMP_FILTER_FLAG_SPEC_ALLOW, filterFlagTSyncESRCH <- ..._TSYNC_ESRCH): what remains after the Go prefix is
+							// the tail of the UAPI name
 							want := strings.ToLower(strings.ReplaceAll(tgt.Name(), "_", ""))
 							gotn := strings.ToLower(strings.TrimPrefix(n.Name, "errno"))
+							if gotn != want {
+								for _, pre := range []string{"action", "filterflag", "seccomp", "pr", "errno"} {
+									if rest := strings.TrimPrefix(strings.ToLower(n.Name), pre); rest != strings.ToLower(n.Name) && len(rest) >= 3 && strings.HasSuffix(want, rest) {
+										// the tail must start at a word boundary of the UAPI name
+										head := want[:len(want)-len(rest)]
+										for _, w := range []string{"seccompret", "seccompfilterflag", "seccomp", "pr", ""} {
+											if head == w {
+												gotn = want
+											}
+										}
+									}
+								}
+							}
 							add(gotn == want, "E4.const", t+"/init/"+n.Name, p.Pos(n.Pos()), "initialised from unix."+tgt.Name(),
 								fmt.Sprintf("constant %s is initialised from unix.%s: the name says otherwise", n.Name, tgt.Name()))
 						}
